@@ -241,6 +241,24 @@ def sat_src(design, impl_design, seqs_text, strands_text):
     return problems
 
 
+def listing_problems(b, seqs_text):
+    """the `.seqs` file lists every sequence, strand and structure the SOURCE names (also the zero-length ones), under its
+    instance-path prefix.  Names are read off the source ASTs of the bundle (`b.files`: "<file>@<instance path>" -> AST), not
+    off anything the implementation or the model produced."""
+    d, _ = parse_seqs_file(seqs_text)
+    kinds = {"seq": "sequence", "strand": "strand", "struct": "structure"}
+    problems = []
+    for key, ast in getattr(b, "files", {}).items():
+        if ast.get("kind") != "comp":
+            continue
+        ip = key.split("@", 1)[1]
+        pfx = ip + "-" if ip else ""
+        for st in ast["stmts"]:
+            if st["k"] in kinds and (pfx + st["name"]) not in d[kinds[st["k"]]]:
+                problems.append("%s %s of the source is not listed in the .seqs file" % (kinds[st["k"]], pfx + st["name"]))
+    return problems
+
+
 def satisfiable(design):
     """independent decision: does the design admit an assignment? (link closure + template intersection)"""
     import semantics
